@@ -91,6 +91,17 @@ def gen_cases(rng, tier, scale):
             cases.append({'line': f'dv{kd} ' + ' ; '.join(ops + seq), 'kind': 'entries', 'tpl': via, 'nsetup': 4, 'main_idx': main_idx,
                           'pi': False, 'tags': ['dev-file-partial']})
             kd += 1
+    # recursion cut off by data, with another partial included before the recursive call inside the block: every entry
+    # point (the root is named for 0-3, unnamed for 4-7) renders the same
+    TREE = {'name': 'r', 'kids': [{'name': 'a', 'kids': [{'name': 'c', 'kids': []}]}, {'name': 'b', 'kids': []}]}
+    for kr, tsrc in enumerate(['{{name}}({{#each kids}}{{> leaf}}{{> main}}{{/each}})', '{{name}}[{{#each kids}}{{> main}}{{> leaf}}{{> main}}{{/each}}]',
+                               '{{#if kids}}{{> leaf}}{{#each kids}}{{> main}}{{/each}}{{else}}.{{/if}}', '{{> leaf}}{{#each kids}}{{#with this}}{{> leaf}}{{> main}}{{/with}}{{/each}}']):
+        Dj = jtok(TREE)
+        ops = [f'regs {x("leaf")} {x("<{{name}}>")}', f'regs {x("main")} {x(tsrc)}', f'regs {x("other")} {x("o")}']
+        seq = [f'r {e} {x("main")} {Dj} -1' for e in (0, 1, 2, 3)] + [f'rt {e} {x(tsrc)} {Dj} -1' for e in (4, 5, 6, 7)] + [f'regt {x("pre")} 1 {x(tsrc)}', f'r 0 {x("pre")} {Dj} -1']
+        obs_ops = [o for o in ops + seq if o.split(' ')[0] in ('regs', 'regt', 'r', 'rt')]
+        main_idx = [i for i, o in enumerate(obs_ops) if o.startswith('r ') or o.startswith('rt ')]
+        cases.append({'line': f'rec{kr} ' + ' ; '.join(ops + seq), 'kind': 'entries', 'tpl': tsrc, 'nsetup': 3, 'main_idx': main_idx, 'pi': False, 'tags': ['bounded-recursion']})
     # history independence: render_template* under configuration B gives the same bytes whether the registry (or a
     # clone of it) rendered the same template string under configuration A before or not
     k3 = 0
